@@ -41,6 +41,7 @@ PURE_METHODS = {"split", "rsplit", "splitlines", "strip", "rstrip", "lstrip", "l
                 "rjust", "total_seconds", "toordinal", "weekday", "isoweekday", "isocalendar", "timetuple", "utcoffset", "dst", "tzname", "date", "time",
                 "strftime", "locked", "issubset", "difference", "union", "group", "match", "isoformat", "timetz", "utctimetuple", "title", "zfill",
                 "partition", "rpartition", "is_integer", "bit_length", "search", "fullmatch", "groups", "span", "start", "end", "intersection"}
+CONTAINER_MUTATORS = {"append", "extend", "insert", "pop", "remove", "sort", "reverse", "add", "discard", "update", "setdefault", "clear", "popitem"}
 IDENTITY = (ast.List, ast.Dict, ast.Set, ast.ListComp, ast.SetComp, ast.DictComp, ast.GeneratorExp, ast.Lambda)
 
 
@@ -80,12 +81,28 @@ def has_conditional(e, bool_calls=()):
     return False
 
 
+# functions / methods whose result depends only on the (immutable) values of their arguments / receiver
+SCALAR_FUNCS = {"int", "abs", "float", "bool", "divmod", "isinstance", "callable", "issubclass", "round", "ord", "chr", "pow", "hex", "bin", "oct",
+                "monthrange", "isleap", "gcd", "_sign", "copysign", "timedelta", "weekday", "text_type", "str", "type"}
+SCALAR_METHODS = {"split", "rsplit", "splitlines", "strip", "rstrip", "lstrip", "lower", "upper", "find", "rfind", "startswith", "endswith", "isdigit",
+                  "isalpha", "isspace", "ljust", "rjust", "total_seconds", "toordinal", "isoweekday", "isocalendar", "title", "zfill", "partition",
+                  "rpartition", "is_integer", "bit_length", "encode", "decode"}
+
+
 def reads_heap(e):
-    for x in ast.walk(e):
-        if isinstance(x, (ast.Attribute, ast.Subscript, ast.Call, ast.Starred, ast.ListComp, ast.SetComp, ast.DictComp, ast.GeneratorExp,
-                          ast.Lambda, ast.List, ast.Dict, ast.Set, ast.JoinedStr)):
-            return True
-    return False
+    """Does the value of this (already evaluated) expression depend on mutable state?"""
+    if isinstance(e, (ast.Constant, ast.Name)):
+        return False
+    if isinstance(e, (ast.BinOp, ast.UnaryOp, ast.Compare, ast.BoolOp, ast.Tuple, ast.IfExp, ast.Slice, ast.keyword)):
+        return any(reads_heap(c) for c in ast.iter_child_nodes(e) if isinstance(c, (ast.expr, ast.keyword)))
+    if isinstance(e, ast.Call):
+        f = e.func
+        if isinstance(f, ast.Name) and f.id in SCALAR_FUNCS:
+            return any(reads_heap(a) for a in e.args) or any(reads_heap(k.value) for k in e.keywords)
+        if isinstance(f, ast.Attribute) and (f.attr in SCALAR_METHODS or src(f) in ("datetime.timedelta", "calendar.isleap", "calendar.monthrange")):
+            return reads_heap(f.value) or any(reads_heap(a) for a in e.args) or any(reads_heap(k.value) for k in e.keywords)
+        return True
+    return True
 
 
 class P(Path):
@@ -126,6 +143,9 @@ class NF(object):
         for p in self.done:
             if p.result and p.result[0] in ("fall", "break", "continue"):
                 for nm in self.final_names:
+                    if nm in p.frozen and not isinstance(p.frozen[nm], IDENTITY):
+                        p.effects.append(("final", nm, p.frozen.pop(nm)))
+                        continue
                     p.effects.append(("final", nm, self.value_of(p, nm)))
         return [p for p in self.done if consistent(p.conds)]
 
@@ -136,17 +156,30 @@ class NF(object):
     # ------------------------------------------------------------------ values
     def value_of(self, p, nm):
         if nm in p.frozen:
-            p.effects.append(("let", nm, p.frozen.pop(nm)))
+            v = p.frozen.pop(nm)
+            p.effects.append(("new" if isinstance(v, IDENTITY) else "let", nm, v))
             return ast.Name(id=nm, ctx=ast.Load())
         v = p.env.get(nm)
         return copy.deepcopy(v) if v is not None else ast.Name(id=nm, ctx=ast.Load())
 
-    def bump(self, p, passed=()):
+    def bump(self, p, passed=(), container=None, attr=None):
         """The heap may have changed: temporaries reading it (and values handed to the callee) stop standing for their
-        defining expression."""
+        defining expression.  container=<text>: only the contents of that container changed (append, sort, ... on it) -
+        reads that do not go through it are unaffected.  attr=<name>: only attributes of that name were assigned."""
         for nm in sorted(p.env):
             v = p.env[nm]
-            if reads_heap(v) or nm in passed and not isinstance(v, (ast.Constant, ast.Name)):
+            if nm in passed and not isinstance(v, (ast.Constant, ast.Name)):
+                hit = True
+            elif not reads_heap(v):
+                hit = False
+            elif container is not None:
+                hit = container in src(v)
+            elif attr is not None:
+                hit = any(isinstance(x, ast.Attribute) and x.attr == attr for x in ast.walk(v)) or \
+                    any(isinstance(x, ast.Call) and reads_heap(x) for x in ast.walk(v))
+            else:
+                hit = True
+            if hit:
                 p.frozen[nm] = v
                 del p.env[nm]
 
@@ -241,7 +274,12 @@ class NF(object):
                 else:
                     passed = set(x.id for a in parts for x in ast.walk(a) if isinstance(x, ast.Name))
                     s_ = self.sym(q, c)
-                    self.bump(q, passed)
+                    if isinstance(c.func, ast.Attribute) and c.func.attr in CONTAINER_MUTATORS and not any(has_impure(a) for a in parts):
+                        # list / set / dict method: changes the contents of its receiver and nothing else
+                        recv = set(x.id for x in ast.walk(parts[0]) if isinstance(x, ast.Name)) if parts else set()
+                        self.bump(q, recv, container=src(c.func.value))
+                    else:
+                        self.bump(q, passed)
                     out.append((q, s_))
             return out
         if isinstance(e, (ast.Yield, ast.YieldFrom)):
@@ -365,6 +403,11 @@ class NF(object):
             return out
         if isinstance(test, ast.Constant):
             return [p] if bool(test.value) == truth else []
+        if isinstance(test, ast.Call) and isinstance(test.func, ast.Name) and test.func.id == "isinstance" and len(test.args) == 2 \
+                and isinstance(test.args[1], ast.Tuple) and len(test.args[1].elts) > 1 and not has_impure(test):
+            # isinstance(x, (A, B))  ==  isinstance(x, A) or isinstance(x, B)
+            alts = [ast.Call(func=test.func, args=[test.args[0], t], keywords=[]) for t in test.args[1].elts]
+            return self.branch(p, ast.BoolOp(op=ast.Or(), values=alts), truth)
         out = []
         for q, r in self.ev(p, test):
             if isinstance(r, ast.Constant):
@@ -389,7 +432,8 @@ class NF(object):
     def bind(self, p, name, value):
         p.frozen.pop(name, None)
         if isinstance(value, IDENTITY):
-            p.effects.append(("let", name, value))
+            # an object with identity is a name, declared where it is first used
+            p.frozen[name] = value
             p.env.pop(name, None)
             return
         p.env[name] = value
@@ -412,7 +456,7 @@ class NF(object):
                 raise Unsupported("effectful store target")
             (q, rv), = self.ev(p, target.value)
             p.effects.append(("store", "%s.%s" % (src(rv), target.attr), value))
-            self.bump(p)
+            self.bump(p, attr=target.attr)
         elif isinstance(target, ast.Subscript):
             if has_impure(target) or has_conditional(target):
                 raise Unsupported("effectful store target")
@@ -668,6 +712,9 @@ class NF(object):
                     self.done.append(q)
             for q in cont + broke:
                 for nm in names:
+                    if nm in q.frozen and not isinstance(q.frozen[nm], IDENTITY):
+                        q.effects.append(("carry", nm, q.frozen.pop(nm)))      # computed before the heap changed, handed on as it is
+                        continue
                     v = self.value_of(q, nm)
                     if not (isinstance(v, ast.Name) and v.id == "%s@loop%d" % (nm, k)):
                         q.effects.append(("carry", nm, v))
